@@ -12,6 +12,22 @@ def check_shape(P, w):
     if fn not in P.bodies:
         return False, f"{fn} not found"
     fns = fn_and_closures(P, fn)
+    # include same-crate helpers the function delegates to (two levels), so that moving the test into a helper is not an alarm
+    crate = fn.split("::", 1)[0] + "::"
+    frontier = list(fns)
+    for _ in range(2):
+        nxt = []
+        for f in frontier:
+            for s in P.iter_sites(f):
+                if s["kind"] in ("call", "closure", "fnref"):
+                    for tg in s["targets"]:
+                        if tg in P.bodies and tg.startswith(crate) and tg not in fns and P.bodies[tg].get("dk") in ("Fn", "AssocFn", "Closure"):
+                            if not tg.endswith(("::clone", "::fmt", "::eq", "::default", "::hash")):
+                                for x in fn_and_closures(P, tg):
+                                    if x not in fns:
+                                        fns.append(x)
+                                        nxt.append(x)
+        frontier = nxt
     called = set()
     floats, ints = set(), set()
     for f in fns:
